@@ -796,6 +796,14 @@ qb_ipcs_us_connect(struct qb_ipcs_service *s,
 		 c->description, s->name);
 	snprintf(r->response, NAME_MAX, "%s-%s", c->description, s->name);
 
+	/* Set correct ownership if qb_ipcs_connection_auth_set() has been used */
+	(void)strlcpy(path, c->description, sizeof(path));
+	shm_ptr = strrchr(path, '/');
+	if (shm_ptr) {
+		*shm_ptr = '\0';
+		(void)chown(path, c->auth.uid, c->auth.gid);
+	}
+
 	fd_hdr = qb_sys_mmap_file_open(path, r->request,
 				       SHM_CONTROL_SIZE,
 				       O_CREAT | O_TRUNC | O_RDWR | O_EXCL);
